@@ -21,8 +21,22 @@ Recognised entry forms (everything else is `opaque` = decided by running the rea
     if COND: result['k'] = ...                             conditional + opaque
     return cls._message_to_numpy(messages)                 the generic path (model: FeVerif.Numpy.genericToNumpy)
 
+    return HELPER(result, messages)                        HELPER a module-level function of the same file (one return, its
+                                                           last statement; stores into the dictionary only): its statements are
+                                                           read in place, parameters renamed to the arguments
+    NAME = result['k'] ... result['k2'] = NAME             alias through a local assigned once after the dictionary
+
 The recognised prelude is the CalibrationStatus one (drop the leading run of messages whose int(m.F) == Enum.MEMBER);
 any other rebinding of `messages` is an opaque prelude.
+
+FALLBACK (`extract(repo, prober)`, used by tools/props/c16.py): a class whose to_numpy the reader cannot express (an
+unrecognised statement / return, an opaque prelude) gets its table from the RUNNING class instead - `infer_table` below: the
+real to_numpy is run on probe lists with pairwise distinct field values and an entry (or the trimLeadingEq prelude) is accepted
+only if the Python expression its kind stands for reproduces the real output bit for bit on every probe; everything else
+stays `opaque` / raises as before.  Such a table is marked `OBTAINED BY PROBING` in the generated file and listed under
+coverage.translator.tables_obtained_by_probing; Lean re-decides the theorems over it and the correspondence and the oracle
+run on fresh inputs as for any other table (a swapped / transposed / mis-cast output is thus read off as what it is: the
+same-name theorem fails and the oracle names the input).
 """
 import ast
 import os
@@ -163,12 +177,16 @@ class ClassInfo:
         self.entries = []          # own entries, source order; ('include', 'MeasurementDetails', ['details']) markers
         self.not_time_dependent = []
         self.line = 0
+        self.inlined_helpers = []   # module-level helper functions whose statements were read in place
+        self.probed = None          # why the table was obtained by probing the running class (None: read from the AST)
+        self.probe_notes = []
 
     def as_obj(self):
         return {'name': self.name, 'file': self.file, 'line': self.line, 'fields': self.fields,
                 'embeds_details': self.embeds_details, 'generic': self.generic, 'prelude': list(self.prelude),
                 'entries': [e.as_obj() if isinstance(e, Entry) else list(e) for e in self.entries],
-                'not_time_dependent': self.not_time_dependent}
+                'not_time_dependent': self.not_time_dependent, 'inlined_helpers': self.inlined_helpers,
+                'obtained_by_probing': self.probed, 'probe_notes': self.probe_notes}
 
 
 def init_fields(cls_node):
@@ -254,7 +272,8 @@ def rebinds_messages(stmt):
     return False
 
 
-def extract_function(ci, fn, enum_values):
+def extract_function(ci, fn, enum_values, helpers=None):
+    helpers = helpers or {}
     body = [s for s in fn.body if not (isinstance(s, ast.Expr) and isinstance(s.value, ast.Constant))]
     # generic path
     if len(body) == 1 and isinstance(body[0], ast.Return) and src(body[0].value) == 'cls._message_to_numpy(messages)':
@@ -270,8 +289,61 @@ def extract_function(ci, fn, enum_values):
                     stored.add(t.value.id)
     dict_name = None
     seen_dict = False
+    aliases = {}       # local name -> key: `NAME = result['key']` after the dictionary (single assignment)
+    inlined = []       # helper functions being inlined (no recursion)
+
+    def inline_helper(call):
+        """`return HELPER(result, messages, ...)` with HELPER a module-level function of the same file whose parameters are
+        bound to plain local names: its statements are read in place (parameters renamed to the arguments, its other locals
+        prefixed), its own `return PARAM` of the dictionary ends the conversion.  None if the call has no such form."""
+        if not (isinstance(call, ast.Call) and isinstance(call.func, ast.Name) and call.func.id in helpers
+                and not call.keywords and call.func.id not in inlined):
+            return None
+        h = helpers[call.func.id]
+        a = h.args
+        if a.vararg or a.kwarg or a.kwonlyargs or a.posonlyargs or a.defaults or len(a.args) != len(call.args) \
+                or not all(isinstance(x, ast.Name) for x in call.args) or h.decorator_list:
+            return None
+        ren = {p.arg: x.id for p, x in zip(a.args, call.args)}
+        if dict_name not in ren.values():
+            return None
+        assigned = {n.id for st in h.body for n in ast.walk(st) if isinstance(n, ast.Name) and isinstance(n.ctx, ast.Store)}
+        if assigned & set(ren):
+            return None                       # a parameter is rebound inside the helper
+        dict_param = [p for p, x in ren.items() if x == dict_name]
+        for st in h.body:
+            for n in ast.walk(st):            # stores into anything but the dictionary (x[idx] = ..., x.attr = ..., del, +=)
+                if isinstance(n, (ast.Subscript, ast.Attribute)) and isinstance(n.ctx, (ast.Store, ast.Del)) \
+                        and not (isinstance(n, ast.Subscript) and isinstance(n.value, ast.Name) and n.value.id in dict_param):
+                    return None
+                if isinstance(n, (ast.AugAssign, ast.Delete)):
+                    return None
+        comp = {n.id for st in h.body for c in ast.walk(st) if isinstance(c, ast.comprehension)
+                for n in ast.walk(c.target) if isinstance(n, ast.Name)}
+        if comp & set(ren):
+            return None
+        for nm in assigned - comp:            # comprehension variables are scoped to the comprehension
+            ren[nm] = '_%s__%s' % (h.name, nm)
+        import copy
+        stmts = [copy.deepcopy(st) for st in h.body if not (isinstance(st, ast.Expr) and isinstance(st.value, ast.Constant))]
+        for st in stmts:
+            for n in ast.walk(st):
+                if isinstance(n, (ast.FunctionDef, ast.Lambda, ast.ClassDef, ast.Global, ast.Nonlocal)):
+                    return None
+                if isinstance(n, ast.Return) and n is not stmts[-1]:
+                    return None               # a single return, as the last statement
+                if isinstance(n, ast.Name) and n.id in ren:
+                    n.id = ren[n.id]
+        if not (stmts and isinstance(stmts[-1], ast.Return)):
+            return None
+        return h.name, stmts
 
     def value_entry(key, node, line, conditional=False):
+        if isinstance(node, ast.Name) and node.id in aliases and not conditional:
+            srcs = [e for e in ci.entries if isinstance(e, Entry) and e.key == aliases[node.id]]
+            if srcs:
+                e0 = srcs[-1]
+                return Entry(key, e0.path, e0.kind, False, e0.why, line)
         if isinstance(node, ast.Name) and node.id in locals_:
             path, kind = locals_[node.id]
             if node.id in stored:
@@ -312,6 +384,14 @@ def extract_function(ci, fn, enum_values):
                 dict_entries(s.value)
                 return
             if isinstance(s.value, ast.Name) and s.value.id == dict_name:
+                return
+            inl = inline_helper(s.value) if seen_dict and dict_name else None
+            if inl is not None:
+                inlined.append(inl[0])
+                ci.inlined_helpers.append(inl[0])
+                for t in inl[1]:
+                    handle(t, conditional)
+                inlined.pop()
                 return
             raise ValueError('%s.to_numpy: unrecognised return `%s`' % (ci.name, src(s)))
         if not seen_dict:
@@ -370,8 +450,15 @@ def extract_function(ci, fn, enum_values):
             for t in s.body:
                 handle(t, True)
             return
+        if isinstance(s, ast.Assign) and len(s.targets) == 1 and isinstance(s.targets[0], ast.Name) and not conditional \
+                and isinstance(s.value, ast.Subscript) and src(s.value.value) == dict_name \
+                and isinstance(s.value.slice, ast.Constant) and s.targets[0].id not in aliases \
+                and s.targets[0].id not in locals_ and s.targets[0].id not in stored:
+            aliases[s.targets[0].id] = s.value.slice.value      # NAME = result['key']
+            return
         if isinstance(s, ast.Assign) and all(isinstance(t, ast.Name) for t in s.targets):
             for t in s.targets:           # scratch locals after the dictionary (idx = ...): they feed opaque entries only
+                aliases.pop(t.id, None)
                 locals_[t.id] = (guess_path(s.value), ('opaque',))
                 stored.add(t.id)
             return
@@ -402,7 +489,9 @@ def enum_table(trees):
     return res
 
 
-def extract(repo):
+def extract(repo, prober=None):
+    """prober(ci, why) -> result of `infer_table` for the class, or None: called for a class the AST reader cannot express
+    (its to_numpy has an unrecognised statement / return, or rebinds `messages` in an unrecognised way)."""
     base = os.path.join(repo, 'python', 'fusion_engine_client', 'messages')
     trees = []
     for f in FILES:
@@ -421,7 +510,29 @@ def extract(repo):
                     ci = ClassInfo(c.name, f + '.py')
                     ci.line = fn.lineno
                     ci.fields, ci.embeds_details = init_fields(c)
-                    extract_function(ci, fn, enums)
+                    helpers = {h.name: h for h in t.body if isinstance(h, ast.FunctionDef)}
+                    why = None
+                    try:
+                        extract_function(ci, fn, enums, helpers)
+                        if ci.prelude[0] == 'opaque':
+                            why = 'unrecognised rebinding of `messages`: `%s`' % ci.prelude[1].split('\n')[0][:80]
+                    except ValueError as e:
+                        if prober is None:
+                            raise
+                        why = str(e)
+                        ci.entries, ci.prelude, ci.not_time_dependent, ci.generic = [], ('none',), [], False
+                        ci.inlined_helpers = []
+                        unreadable = e
+                    else:
+                        unreadable = None
+                    if why is not None and prober is not None:
+                        res = prober(ci, why)
+                        if res is not None and res[0] is not None:
+                            apply_probe(ci, res[0], why)
+                        elif unreadable is not None:
+                            raise ValueError('%s (probing the running class: %s)' % (unreadable, res[1] if res else 'not available'))
+                        else:
+                            ci.probe_notes.append('probing the running class: %s' % (res[1] if res else 'not available'))
                     classes.append(ci)
     names = [c.name for c in classes]
     if 'MeasurementDetails' not in names:
@@ -433,6 +544,229 @@ def extract(repo):
     # includes must come after their target in the Lean file
     classes.sort(key=lambda c: (0 if c.name == 'MeasurementDetails' else 1, FILES.index(c.file[:-3]), c.line))
     return classes
+
+
+# ---- behavioural extraction (fallback when the AST reader cannot express a class) ------------------------------------
+# The table of ONE class is inferred from the running `Class.to_numpy` on probe lists supplied by the harness (objects whose
+# fields hold pairwise distinct values; lengths 0, 1, 2, 5; NaN P1 times and time sources at known positions; for every
+# enum-valued field leading runs of every member).  A candidate table entry is accepted only if the PYTHON EXPRESSION THE
+# ENTRY KIND STANDS FOR (see the module docstring), evaluated by numpy on the probe objects, reproduces the real output
+# bit for bit (dtype, shape, bytes) on EVERY probe; what no candidate reproduces stays `opaque`, exactly as for an
+# unrecognised source form.  The result is an ordinary table: Lean re-decides the theorems over it and the correspondence /
+# oracle of tools/props/c16.py run on fresh random inputs as for an AST-read table.
+NP_DTYPES = [('none', None), ('int', int), ('bool', bool), ('uint32', 'uint32'), ('uint64', 'uint64')]
+PROBE_METHOD_PREFIXES = ('is_', 'has_')
+
+
+def _get(obj, path):
+    for seg in path:
+        obj = getattr(obj, seg[:-2])() if seg.endswith('()') else getattr(obj, seg)
+    return obj
+
+
+def _same_array(a, b):
+    import numpy as np
+    return isinstance(a, np.ndarray) and isinstance(b, np.ndarray) and a.dtype == b.dtype and a.dtype.kind != 'O' \
+        and a.shape == b.shape and a.tobytes() == b.tobytes()
+
+
+def _same_value(a, b):
+    """`messages[0].f` used as a dictionary value"""
+    import numpy as np
+    if isinstance(a, np.ndarray) or isinstance(b, np.ndarray):
+        return _same_array(a, b)
+    if isinstance(a, (bool, int, float, np.number, np.bool_)) and isinstance(b, (bool, int, float, np.number, np.bool_)):
+        return type(a) is type(b) and (a == b or (a != a and b != b))
+    return False
+
+
+def candidate_paths(obj):
+    """attribute paths of a message object: its attributes, those of nested plain objects (the measurement details), and the
+    public argument-less predicate methods of its class"""
+    import enum
+    import inspect
+    import numpy as np
+    res = []
+    for k, v in vars(obj).items():
+        res.append([k])
+        if hasattr(v, '__dict__') and not isinstance(v, (enum.Enum, type, np.ndarray)) and not hasattr(v, '__float__'):
+            res += [[k, k2] for k2 in vars(v)]
+    for nm, f in inspect.getmembers(type(obj), inspect.isfunction):
+        if nm.startswith(PROBE_METHOD_PREFIXES) and len(inspect.signature(f).parameters) == 1:
+            res.append([nm + '()'])
+    return res
+
+
+def eval_per_msg(msgs, path, elem, dtype, transposed):
+    """np.array([ELEM(m.path) for m in msgs], dtype=D)[.T] -- None if it raises"""
+    import numpy as np
+    import warnings
+    conv = {'id': lambda v: v, 'int': int, 'float': float}[elem]
+    try:
+        with warnings.catch_warnings():
+            warnings.simplefilter('error')
+            d = dict(NP_DTYPES)[dtype]
+            vals = [conv(_get(m, path)) for m in msgs]
+            a = np.array(vals) if d is None else np.array(vals, dtype=d)
+            return a.T if transposed else a
+    except Exception:     # noqa
+        return None
+
+
+def eval_fill(msgs, path, fb, cond, v):
+    import numpy as np
+    try:
+        x = np.array([float(_get(m, path)) for m in msgs])
+        s = np.array([int(_get(m, cond)) for m in msgs], dtype=int)
+        f = np.array([float(_get(m, fb)) for m in msgs])
+        idx = np.logical_and(s == v, np.isnan(x))
+        x[idx] = f[idx]
+        return x
+    except Exception:     # noqa
+        return None
+
+
+def leading_run(msgs, path, v):
+    """number of messages `trimLeadingEq path v` drops (Model/Numpy.lean trimLeadingEq / argmaxNe)"""
+    st = [int(_get(m, path)) for m in msgs]
+    if all(x == v for x in st):
+        return 0
+    k = 0
+    while st[k] == v:
+        k += 1
+    return k
+
+
+def infer_table(ci, probes, enum_members):
+    """probes: [(msgs, real dict)] of one class.  enum_members: {tuple(path): [(Enum.MEMBER text, int)]} for the enum-valued
+    scalar attribute paths.  Returns (prelude, entries, not_time_dependent, notes) or (None, why)."""
+    import numpy as np
+    notes = []
+    nonempty = [(m, r) for m, r in probes if m]
+    if not nonempty or not any(not m for m, _ in probes):
+        return None, 'no probes'
+    ntd = None
+    for _, r in probes:
+        md = r.get('__metadata__', {})
+        if not isinstance(md, dict) or set(md) - {'not_time_dependent'}:
+            return None, 'unknown __metadata__'
+        this = list(md.get('not_time_dependent', []))
+        if ntd is not None and this != ntd:
+            return None, '__metadata__ differs between inputs'
+        ntd = this
+    # -- prelude: how many messages were converted?
+    kept_n = []
+    for msgs, r in probes:
+        ls = {len(a) for k, a in r.items() if k not in ntd and isinstance(a, np.ndarray) and a.ndim == 1}
+        if len(ls) != 1:
+            return None, 'one-dimensional outputs of different lengths %s for %d messages' % (sorted(ls), len(msgs))
+        kept_n.append(ls.pop())
+    if all(k == len(m) for k, (m, _) in zip(kept_n, probes)):
+        prelude = ('none',)
+        drop = [0] * len(probes)
+    else:
+        hyp = []
+        for path, members in sorted(enum_members.items()):
+            for text, v in members:
+                try:
+                    d = [leading_run(m, path, v) if m else 0 for m, _ in probes]
+                except Exception:     # noqa
+                    continue
+                if all(len(m) - x == k for (m, _), x, k in zip(probes, d, kept_n)):
+                    hyp.append((list(path), text, v, d))
+        if len(hyp) != 1:
+            return None, 'the number of converted messages follows %d of the candidate leading-run rules' % len(hyp)
+        prelude = ('trimLeadingEq', hyp[0][0], hyp[0][1], hyp[0][2])
+        drop = hyp[0][3]
+        notes.append('prelude: converts messages[k:], k = length of the leading run of %s == %s (0 if all)' % ('.'.join(hyp[0][0]), hyp[0][1]))
+    eff = [(m[d:], r) for (m, r), d in zip(probes, drop)]
+    sample = max(eff, key=lambda x: len(x[0]))
+    paths = candidate_paths(sample[0][0])
+    # -- entries, in the key order of the real dictionary
+    keys = []
+    for _, r in probes:
+        for k in r:
+            if k != '__metadata__' and k not in keys:
+                keys.append(k)
+    entries = []
+    for key in keys:
+        if not all(key in r for _, r in probes):
+            entries.append(Entry(key, [], ('opaque',), True, 'probing: the key is present for some inputs only', ci.line))
+            continue
+        found = []
+        if isinstance(sample[1][key], np.ndarray):
+            for path in paths:
+                for elem in ('id', 'float', 'int'):
+                    for dtype, _ in NP_DTYPES:
+                        for tr in (False, True):
+                            if not _same_array(eval_per_msg(sample[0], path, elem, dtype, tr), sample[1][key]):
+                                continue
+                            if all(_same_array(eval_per_msg(m, path, elem, dtype, tr), r[key]) for m, r in eff):
+                                found.append((path, ('perMsg', elem, dtype, tr)))
+            # several forms of ONE path can be indistinguishable (`.T` of a 1-D array, float() of a float): the plainest one
+            if not found:
+                x = sample[1][key]
+                if x.dtype == np.float64 and x.ndim == 1:
+                    for path in paths:
+                        base = eval_per_msg(sample[0], path, 'float', 'none', False)
+                        if base is None or base.shape != x.shape or not any(a == b for a, b in zip(base.tolist(), x.tolist())):
+                            continue
+                        for fb in paths:
+                            if fb == path or eval_per_msg(sample[0], fb, 'float', 'none', False) is None:
+                                continue
+                            for cond, members in sorted(enum_members.items()):
+                                for text, v in members:
+                                    if all(_same_array(eval_fill(m, path, fb, list(cond), v), r[key]) for m, r in eff):
+                                        found.append((path, ('fillNaN', fb, list(cond), text, v)))
+        if key in ntd or not isinstance(sample[1][key], np.ndarray) or not found:
+            empty = [r[key] for m, r in eff if not m]
+            dflt = None
+            e0 = empty[0]
+            if isinstance(e0, float) and e0 != e0:
+                dflt = ('nanScalar',)
+            elif isinstance(e0, np.ndarray) and e0.ndim == 1 and e0.dtype == np.float64 and np.isnan(e0).all() and len(e0) > 0:
+                dflt = ('nanVec', len(e0))
+            if dflt is not None:
+                import struct
+                nanb = struct.pack('<d', float('nan'))
+                if all((isinstance(e, float) and struct.pack('<d', e) == nanb) if dflt[0] == 'nanScalar' else
+                       _same_array(e, np.full((dflt[1],), np.nan)) for e in empty):
+                    firsts = [(path, ('first',) + dflt) for path in paths
+                              if all(_same_value(_try_get(m[0], path), r[key]) for m, r in eff if m)]
+                    if firsts:
+                        found = firsts
+        paths_found = []
+        for f in found:
+            if f[0] not in paths_found:
+                paths_found.append(f[0])
+        if not found:
+            entries.append(Entry(key, [], ('opaque',), False, 'probing: no table form reproduces the output', ci.line))
+            continue
+        if len(paths_found) > 1:
+            notes.append('%s: the probes do not tell the attributes %s apart' % (key, ['.'.join(q) for q in paths_found]))
+            own = [q for q in paths_found if q[-1] == key]
+            if len(own) != 1:
+                entries.append(Entry(key, [], ('opaque',), False, 'probing: ambiguous between %s' % paths_found, ci.line))
+                continue
+            found = [f for f in found if f[0] == own[0]]
+        path, kind = found[0]
+        entries.append(Entry(key, list(path), kind, False, None, ci.line))
+    return (prelude, entries, ntd, notes), None
+
+
+def _try_get(obj, path):
+    try:
+        return _get(obj, path)
+    except Exception:     # noqa
+        return None
+
+
+def apply_probe(ci, result, why):
+    prelude, entries, ntd, notes = result
+    ci.prelude, ci.entries, ci.not_time_dependent = prelude, entries, ntd
+    ci.generic = False
+    ci.probed = why
+    ci.probe_notes = notes
 
 
 # ---- Lean emission --------------------------------------------------------------------------------------------------
@@ -455,7 +789,8 @@ def to_lean(classes):
            'One table per class defining `to_numpy`.  Names are Nat codes (big-endian UTF-8 bytes, written in hex).', '-/',
            'import FeVerif.Model.Numpy', '', 'namespace FeVerif.Numpy.Gen', '']
     for c in classes:
-        out.append('/-- %s.to_numpy  (%s:%d) -/' % (c.name, c.file, c.line))
+        out.append('/-- %s.to_numpy  (%s:%d)%s -/' % (c.name, c.file, c.line, '  -- table OBTAINED BY PROBING the running class '
+                   '(the AST reader: %s)' % c.probed.replace('-/', '- /').replace('\n', ' ')[:160] if c.probed else ''))
         out.append('def %s : ClassTable where' % c.name)
         out.append('  name := %s' % lean_name(c.name))
         out.append('  fields := %s' % lean_path(c.fields))
@@ -521,8 +856,8 @@ def flat_entries(classes, ci):
     return res
 
 
-def run(repo, lean_dir):
-    classes = extract(repo)
+def run(repo, lean_dir, prober=None):
+    classes = extract(repo, prober)
     text = to_lean(classes)
     changed = write_if_changed(os.path.join(lean_dir, 'FeVerif', 'Generated', 'Numpy.lean'), text)
     return classes, changed
